@@ -1,6 +1,8 @@
 """Hand-written mutants (DESIGN 3): (property, name, file relative to repo root, old, new)."""
 S = "sktime/forecasting/model_selection/_split.py"
 FH = "sktime/forecasting/base/_fh.py"
+R = "sktime/forecasting/compose/_reduce.py"
+SK = "sktime/forecasting/base/_sktime.py"
 MUTANTS = [
  ("C01", "get_end_plus1", S, "end = n_timepoints - fh_max + 1", "end = n_timepoints - fh_max + 2"),
  ("C01", "sliding_test_shift", S, "            train = np.arange(split_point - window_length, split_point)\n            test = split_point + fh - 1", "            train = np.arange(split_point - window_length, split_point)\n            test = split_point + fh"),
@@ -16,4 +18,11 @@ MUTANTS = [
  ("C02", "no_dup_check", FH, "if len(values) != values.nunique():", "if False:"),
  ("C02", "lru_ignores_cutoff", FH, "            absolute = cutoff + relative\n", "            absolute = cutoff + relative if cutoff % 7 else cutoff + relative + 1\n"),
  ("C02", "tuple_accepted", FH, "elif isinstance(values, (list, np.ndarray)):", "elif isinstance(values, (list, tuple, np.ndarray)):"),
+ ("C05", "features_leak_one_step", R, "Xt = Zt[:, :, :window_length]", "Xt = Zt[:, :, 1 : window_length + 1]"),
+ ("C05", "recursive_feedback_slot", R, "last[:, 0, window_length + i] = y_pred[i]", "last[:, 0, window_length + i - 1] = y_pred[i]"),
+ ("C05", "dirrec_target_leak", R, "X_fit = X_full[:, :, : n_timepoints + i]", "X_fit = X_full[:, :, : n_timepoints + i + 1] if i + 1 < len(self.fh) else X_full[:, :, : n_timepoints + i]"),
+ ("C05", "recursive_returns_first_steps", R, "        fh_idx = fh.to_indexer(self.cutoff)\n        return y_pred[fh_idx]", "        fh_idx = fh.to_indexer(self.cutoff)\n        return y_pred[: len(fh_idx)]"),
+ ("C05", "last_window_shifted", SK, "start = _shift(cutoff, by=-self.window_length_ + 1)", "start = _shift(cutoff, by=-self.window_length_)"),
+ ("C05", "exog_order_time_major", R, "return yt, Xt.reshape(Xt.shape[0], -1)", "return yt, Xt.transpose(0, 2, 1).reshape(Xt.shape[0], -1)"),
+ ("C05", "drop_last_full_window", R, "Zt = Zt[effective_window_length:-effective_window_length]", "Zt = Zt[effective_window_length:-effective_window_length - 1]"),
 ]
